@@ -30,6 +30,8 @@ theorem emitNode_flat (env : Env) (ln : FLine) (l c : Nat) (h : ln.EmitOK) :
     simp [FLine.node, FScalar.value, emitNode, emitAssignment, emitValue, forceQuote, leadingLines, indentStr, FLine.text, FScalar.text]
   | null =>
     simp [FLine.node, FScalar.value, emitNode, emitAssignment, emitValue, forceQuote, leadingLines, indentStr, FLine.text, FScalar.text]
+  | int i =>
+    simp [FLine.node, FScalar.value, emitNode, emitAssignment, emitValue, forceQuote, leadingLines, indentStr, FLine.text, FScalar.text]
 
 /-- positions given to the nodes do not matter: any assignment of (line, column) to the lines. -/
 def flatNodes (pos : Nat → Nat × Nat) : Nat → List FLine → List Node
